@@ -5,6 +5,7 @@ package pki
 import (
 	"crypto/x509"
 	"fmt"
+	"hash/fnv"
 	"math/big"
 	"strings"
 	"testing"
@@ -29,11 +30,22 @@ type c16Scenario struct {
 // c16Base: two roots and an intermediate under root0; a few certificates of
 // every kind; one revocation per root already on the CRLs.
 //
-//	certs: [0]=intermediate's own cert, then a0 a1 (root0), b0 b1(lease) (root1),
+//	certs: [0]=intermediate's own cert, then a0 a1 a2 (root0), b0 b1(lease) b2 (root1),
 //	       i0 (intermediate), f0 (forged, root1), x0 (forged, expired, root0)
-type c16BaseIdx struct{ intc, a0, a1, b0, b1, i0, f0, x0 int }
+type c16BaseIdx struct{ intc, a0, a1, a2, b0, b1, b2, i0, f0, x0 int }
 
-func c16Base(r *kit.Result, id string) (*c16World, c16BaseIdx) {
+// c16Mode is the CRL configuration a scenario runs under.
+type c16Mode struct {
+	name string
+	cfg  c16Cfg
+}
+
+var c16Modes = []c16Mode{{"manual", c16Cfg{}}, {"auto", c16Cfg{Auto: true}}, {"auto-delta", c16Cfg{Auto: true, Delta: true}}}
+
+// c16Base builds the start state under the given mode. Under the auto-rebuild modes one more certificate
+// per root is revoked after the switch, so that revocations are pending (reported successful, on no
+// complete CRL yet) when the target operation starts.
+func c16Base(r *kit.Result, id string, m c16Mode) (*c16World, c16BaseIdx) {
 	w := c16NewWorld(r, id)
 	w.addRoot()
 	w.addRoot()
@@ -42,14 +54,24 @@ func c16Base(r *kit.Result, id string) (*c16World, c16BaseIdx) {
 	x.intc = 0
 	x.a0 = w.issue(0, false)
 	x.a1 = w.issue(0, false)
+	x.a2 = w.issue(0, false)
 	x.b0 = w.issue(1, false)
 	x.b1 = w.issue(1, true)
+	x.b2 = w.issue(1, false)
 	x.i0 = w.issue(in, false)
 	x.f0 = w.forge(1, false)
 	x.x0 = w.forge(0, true)
 	w.revoke(x.a0, "serial")
 	w.revoke(x.b0, "cert")
 	w.check("base")
+	if m.cfg.Auto {
+		w.setCfg(m.cfg)
+		w.check("base")
+		w.revoke(x.a2, "serial")
+		w.check("base")
+		w.revoke(x.b2, "serial-hyphen")
+		w.check("base")
+	}
 	return w, x
 }
 
@@ -57,76 +79,122 @@ func c16RevokeTarget(ci int, via string) c16Target {
 	return c16Target{desc: "revoke via " + via, cert: ci, run: func(w *c16World) bool { return w.revoke(ci, via) }}
 }
 
-func c16Scenarios(nRandom int) []c16Scenario {
-	sc := []c16Scenario{
-		{"revoke-serial", func(r *kit.Result, _ *kit.Rand, id string) (*c16World, c16Target) {
-			w, x := c16Base(r, id)
-			return w, c16RevokeTarget(x.a1, "serial")
+func c16CfgTarget(desc string, data map[string]any) c16Target {
+	return c16Target{desc: "config/crl " + desc, cert: -1, run: func(w *c16World) bool { return w.writeCfg(data) }}
+}
+
+// c16Proto is a scenario before a mode is chosen: prep brings the base world into the state the target
+// needs, target names the interrupted operation.
+type c16Proto struct {
+	name   string
+	modes  []string // nil: every mode
+	prep   func(w *c16World, x c16BaseIdx, m c16Mode)
+	target func(x c16BaseIdx, m c16Mode) c16Target
+}
+
+func c16Protos() []c16Proto {
+	rev := func(pick func(x c16BaseIdx) int, via string) func(x c16BaseIdx, m c16Mode) c16Target {
+		return func(x c16BaseIdx, _ c16Mode) c16Target { return c16RevokeTarget(pick(x), via) }
+	}
+	cfgT := func(desc string, data map[string]any) func(x c16BaseIdx, m c16Mode) c16Target {
+		return func(c16BaseIdx, c16Mode) c16Target { return c16CfgTarget(desc, data) }
+	}
+	return []c16Proto{
+		{name: "revoke-serial", target: rev(func(x c16BaseIdx) int { return x.a1 }, "serial")},
+		{name: "revoke-byoc", target: rev(func(x c16BaseIdx) int { return x.f0 }, "cert")},
+		{name: "revoke-with-key", target: rev(func(x c16BaseIdx) int { return x.i0 }, "key-serial")},
+		{name: "revoke-lease", target: rev(func(x c16BaseIdx) int { return x.b1 }, "lease")},
+		{name: "rerevoke", target: rev(func(x c16BaseIdx) int { return x.a0 }, "serial-upper")},
+		{name: "rerevoke-pending", modes: []string{"auto", "auto-delta"}, target: rev(func(x c16BaseIdx) int { return x.a2 }, "serial")},
+		{name: "revoke-issuer", target: rev(func(x c16BaseIdx) int { return x.intc }, "issuer")},
+		{name: "revoke-while-issuer-removed",
+			prep:   func(w *c16World, _ c16BaseIdx, _ c16Mode) { w.removeIssuer(1); w.check("base") },
+			target: rev(func(x c16BaseIdx) int { return x.b1 }, "serial")},
+		{name: "rotate", target: func(c16BaseIdx, c16Mode) c16Target {
+			return c16Target{desc: "crl/rotate", cert: -1, run: func(w *c16World) bool { return w.rotate() }}
 		}},
-		{"revoke-byoc", func(r *kit.Result, _ *kit.Rand, id string) (*c16World, c16Target) {
-			w, x := c16Base(r, id)
-			return w, c16RevokeTarget(x.f0, "cert")
+		{name: "rotate-delta", modes: []string{"auto-delta"}, target: func(c16BaseIdx, c16Mode) c16Target {
+			return c16Target{desc: "crl/rotate-delta", cert: -1, run: func(w *c16World) bool { return w.rotateDelta() }}
 		}},
-		{"revoke-with-key", func(r *kit.Result, _ *kit.Rand, id string) (*c16World, c16Target) {
-			w, x := c16Base(r, id)
-			return w, c16RevokeTarget(x.i0, "key-serial")
+		{name: "tidy-expired",
+			prep: func(w *c16World, x c16BaseIdx, m c16Mode) {
+				c := m.cfg
+				c.AllowExpired = true
+				w.setCfg(c)
+				w.revoke(x.x0, "cert")
+				w.check("base")
+			},
+			target: func(c16BaseIdx, c16Mode) c16Target {
+				return c16Target{desc: "tidy", cert: -1, run: func(w *c16World) bool { return w.tidy(true, true, true) }}
+			}},
+		{name: "enable-crl",
+			prep: func(w *c16World, x c16BaseIdx, m c16Mode) {
+				c := m.cfg
+				c.Disable = true
+				w.setCfg(c)
+				w.revoke(x.a1, "serial")
+				w.check("base")
+			},
+			target: cfgT("disable=false", map[string]any{"disable": false})},
+		{name: "disable-crl", target: cfgT("disable=true", map[string]any{"disable": true})},
+		{name: "auto-to-manual", modes: []string{"auto", "auto-delta"}, target: func(_ c16BaseIdx, m c16Mode) c16Target {
+			if m.cfg.Delta {
+				return c16CfgTarget("auto_rebuild=false enable_delta=false", map[string]any{"auto_rebuild": false, "enable_delta": false})
+			}
+			return c16CfgTarget("auto_rebuild=false", map[string]any{"auto_rebuild": false})
 		}},
-		{"revoke-lease", func(r *kit.Result, _ *kit.Rand, id string) (*c16World, c16Target) {
-			w, x := c16Base(r, id)
-			return w, c16RevokeTarget(x.b1, "lease")
+		{name: "auto-to-manual-full-write", modes: []string{"auto"}, target: func(c16BaseIdx, c16Mode) c16Target {
+			return c16Target{desc: "config/crl (all fields) auto_rebuild=false", cert: -1, run: func(w *c16World) bool { return w.setCfg(c16Cfg{}) }}
 		}},
-		{"revoke-auto-delta", func(r *kit.Result, _ *kit.Rand, id string) (*c16World, c16Target) {
-			w, x := c16Base(r, id)
-			w.setCfg(c16Cfg{Auto: true, Delta: true})
-			w.revoke(x.b1, "serial")
-			w.check("base")
-			return w, c16RevokeTarget(x.a1, "serial")
-		}},
-		{"rerevoke", func(r *kit.Result, _ *kit.Rand, id string) (*c16World, c16Target) {
-			w, x := c16Base(r, id)
-			return w, c16RevokeTarget(x.a0, "serial-upper")
-		}},
-		{"revoke-issuer", func(r *kit.Result, _ *kit.Rand, id string) (*c16World, c16Target) {
-			w, x := c16Base(r, id)
-			return w, c16RevokeTarget(x.intc, "issuer")
-		}},
-		{"revoke-while-issuer-removed", func(r *kit.Result, _ *kit.Rand, id string) (*c16World, c16Target) {
-			w, x := c16Base(r, id)
-			w.removeIssuer(1)
-			w.check("base")
-			return w, c16RevokeTarget(x.b1, "serial")
-		}},
-		{"rotate", func(r *kit.Result, _ *kit.Rand, id string) (*c16World, c16Target) {
-			w, _ := c16Base(r, id)
-			return w, c16Target{desc: "crl/rotate", cert: -1, run: func(w *c16World) bool { return w.rotate() }}
-		}},
-		{"tidy-expired", func(r *kit.Result, _ *kit.Rand, id string) (*c16World, c16Target) {
-			w, x := c16Base(r, id)
-			w.setCfg(c16Cfg{AllowExpired: true})
-			w.revoke(x.x0, "cert")
-			w.check("base")
-			return w, c16Target{desc: "tidy", cert: -1, run: func(w *c16World) bool { return w.tidy(true, true, true) }}
-		}},
-		{"enable-crl", func(r *kit.Result, _ *kit.Rand, id string) (*c16World, c16Target) {
-			w, x := c16Base(r, id)
-			w.setCfg(c16Cfg{Disable: true})
-			w.revoke(x.a1, "serial")
-			w.check("base")
-			return w, c16Target{desc: "config/crl disable=false", cert: -1, run: func(w *c16World) bool { return w.setCfg(c16Cfg{}) }}
-		}},
-		{"auto-to-manual", func(r *kit.Result, _ *kit.Rand, id string) (*c16World, c16Target) {
-			w, x := c16Base(r, id)
-			w.setCfg(c16Cfg{Auto: true})
-			w.revoke(x.a1, "serial")
-			w.check("base")
-			return w, c16Target{desc: "config/crl auto_rebuild=false", cert: -1, run: func(w *c16World) bool { return w.setCfg(c16Cfg{}) }}
-		}},
+		{name: "manual-to-auto", modes: []string{"manual"}, target: cfgT("auto_rebuild=true", map[string]any{"auto_rebuild": true})},
+		{name: "manual-to-auto-delta", modes: []string{"manual"}, target: cfgT("auto_rebuild=true enable_delta=true", map[string]any{"auto_rebuild": true, "enable_delta": true})},
+		{name: "delta-on", modes: []string{"auto"}, target: cfgT("enable_delta=true", map[string]any{"enable_delta": true})},
+		{name: "delta-off", modes: []string{"auto-delta"}, target: cfgT("enable_delta=false", map[string]any{"enable_delta": false})},
+		{name: "expiry-change", target: cfgT("expiry=48h grace=8h", map[string]any{"expiry": "48h", "auto_rebuild_grace_period": "8h"})},
+	}
+}
+
+// c16Scenarios: every proto under every mode it applies to (named proto@mode; the manual mode keeps the
+// bare name), then generated start states. faultTier thins the auto-mode variants for the single-fault
+// monitor of the quick tier (half of them, alternating), the crash monitor always gets all.
+func c16Scenarios(nRandom int, thin bool) []c16Scenario {
+	var sc []c16Scenario
+	nv := 0
+	for _, p := range c16Protos() {
+		for _, m := range c16Modes {
+			if p.modes != nil {
+				ok := false
+				for _, n := range p.modes {
+					ok = ok || n == m.name
+				}
+				if !ok {
+					continue
+				}
+			}
+			name := p.name
+			if m.name != "manual" {
+				name += "@" + m.name
+				nv++
+				if thin && nv%2 == 0 && p.modes == nil {
+					continue
+				}
+			}
+			p, m := p, m
+			sc = append(sc, c16Scenario{name, func(r *kit.Result, _ *kit.Rand, id string) (*c16World, c16Target) {
+				w, x := c16Base(r, id, m)
+				if p.prep != nil {
+					p.prep(w, x, m)
+				}
+				return w, p.target(x, m)
+			}})
+		}
 	}
 	for i := 0; i < nRandom; i++ {
 		i := i
 		sc = append(sc, c16Scenario{fmt.Sprintf("random-state-%d", i), func(r *kit.Result, rng *kit.Rand, id string) (*c16World, c16Target) {
-			// a generated history prefix, then the revocation of one more certificate (or a rotation)
-			w, _ := c16History(r, rng, id, 10+rng.Intn(12), 1+i%3, false)
+			// a generated history prefix (which also moves through CRL configurations), then one more
+			// revocation, a rotation or a configuration write as the interrupted operation
+			w, _ := c16History(r, rng, id, 10+rng.Intn(12), 1+i%4, false)
 			var cand []int
 			for _, ci := range w.unrevoked() {
 				c := &w.certs[ci]
@@ -146,8 +214,19 @@ func c16Scenarios(nRandom int) []c16Scenario {
 				}
 			}
 			w.check("base")
-			if len(cand) == 0 || rng.Chance(1, 5) {
+			x := rng.Intn(20)
+			switch {
+			case len(cand) == 0 || x < 4:
 				return w, c16Target{desc: "crl/rotate", cert: -1, run: func(w *c16World) bool { return w.rotate() }}
+			case x < 6 && w.cfg.Auto:
+				if w.cfg.Delta {
+					return w, c16CfgTarget("auto_rebuild=false enable_delta=false", map[string]any{"auto_rebuild": false, "enable_delta": false})
+				}
+				return w, c16CfgTarget("auto_rebuild=false", map[string]any{"auto_rebuild": false})
+			case x < 6:
+				return w, c16CfgTarget("auto_rebuild=true", map[string]any{"auto_rebuild": true})
+			case x < 8:
+				return w, c16CfgTarget(fmt.Sprintf("disable=%v", !w.cfg.Disable), map[string]any{"disable": !w.cfg.Disable})
 			}
 			ci := kit.Pick(rng, cand)
 			return w, c16RevokeTarget(ci, kit.Pick(rng, w.routes(ci)))
@@ -256,7 +335,7 @@ type c16Point struct {
 
 func c16Run(t *testing.T, mode string, r *kit.Result, seed int64) {
 	shard, shards := kit.Shard()
-	scs := c16Scenarios(kit.N(3, 250))
+	scs := c16Scenarios(kit.N(5, 250), mode == "fault" && kit.N(1, 0) == 1)
 	only := kit.OnlyCase()
 	global := 0
 	for si, sc := range scs {
@@ -267,13 +346,25 @@ func c16Run(t *testing.T, mode string, r *kit.Result, seed int64) {
 		if only == "" && si%shards != shard {
 			continue
 		}
-		rng := kit.NewRand(seed, uint64(5000+si))
+		// the PRNG stream of a scenario depends on its name only, so both monitors see the same start states
+		hn := fnv.New32a()
+		hn.Write([]byte(sc.name))
+		rng := kit.NewRand(seed, uint64(5000+hn.Sum32()%100000))
 		base, tg := sc.build(r, rng, sc.name+"|base")
 		if base.broken {
 			base.close()
 			continue
 		}
 		r.Count("scenarios", 1)
+		switch {
+		case base.cfg.Auto && base.cfg.Delta:
+			r.Count("scenarios_auto_rebuild_delta", 1)
+		case base.cfg.Auto:
+			r.Count("scenarios_auto_rebuild", 1)
+		}
+		if base.pendingAbsent > 0 {
+			r.Count("scenarios_with_pending_revocations", 1)
+		}
 		// dry run: which storage operations does the target perform here?
 		dry := base.fork(sc.name + "|dry")
 		dry.st.arm("", 0)
@@ -334,6 +425,9 @@ func c16Run(t *testing.T, mode string, r *kit.Result, seed int64) {
 					continue
 				}
 				r.Count("faults_fired", 1)
+				if base.cfg.Auto {
+					r.Count("faults_fired_under_auto_rebuild", 1)
+				}
 				r.Count("fault_on:"+fired.Op, 1)
 				r.Nontrivial(pt.id)
 				if reported {
@@ -365,9 +459,41 @@ func c16Run(t *testing.T, mode string, r *kit.Result, seed int64) {
 				w.restart()
 				w.readCfg()
 				r.Count("crash_prefixes", 1)
-				if pt.idx > 0 && pt.idx < len(ops) {
+				inside := pt.idx > 0 && pt.idx < len(ops)
+				if inside {
 					r.Nontrivial(pt.id)
 					r.Count("crash_inside_write_sequence", 1)
+				}
+				// was the cut between the write of a complete CRL and the write of the CRL bookkeeping
+				// (crls/config, which carries the next CRL number)?
+				crlPut, bookkept := false, true
+				for _, op := range ops[:pt.idx] {
+					switch {
+					case op.Key == "crls/config":
+						bookkept = true
+					case strings.HasPrefix(op.Key, "crls/") && !op.del && !strings.HasSuffix(op.Key, "-delta"):
+						crlPut, bookkept = true, false
+					}
+				}
+				if crlPut && !bookkept {
+					r.Count("crash_between_crl_and_crl_bookkeeping", 1)
+				}
+				if w.cfg.Auto {
+					r.Count("crash_prefixes_auto_rebuild", 1)
+					if w.cfg.Delta {
+						r.Count("crash_prefixes_auto_rebuild_delta", 1)
+					} else {
+						r.Count("crash_prefixes_auto_rebuild_no_delta", 1)
+					}
+					if inside {
+						r.Count("crash_inside_write_sequence_auto_rebuild", 1)
+					}
+					if crlPut {
+						r.Count("crash_after_crl_write_auto_rebuild", 1)
+					}
+					if crlPut && !bookkept {
+						r.Count("crash_between_crl_and_crl_bookkeeping_auto_rebuild", 1)
+					}
 				}
 			}
 			c16AfterInterruption(w, tg, reported, crng)
@@ -391,6 +517,14 @@ func TestVerif_C16_Faults(t *testing.T) {
 	r.Require("retry_reported_success", int64(200/shards))
 	r.Require("entry_checks", int64(3000/shards))
 	r.Require("crl_presence_confirmed", int64(2000/shards))
+	r.Require("faults_fired_under_auto_rebuild", int64(150/shards))
+	r.Require("scenarios_auto_rebuild", 1)
+	r.Require("scenarios_auto_rebuild_delta", 1)
+	r.Require("cfgtrans:auto_off_with_pending_revocations", int64(30/shards))
+	r.Require("crls_parsed", int64(3000/shards))
+	r.Require("crl_number_comparisons", int64(3000/shards))
+	r.Require("crl_number_increase_confirmed", int64(1500/shards))
+	r.Require("rotations_after_interruption_under_auto_rebuild", int64(100/shards))
 }
 
 func TestVerif_C16_Crash(t *testing.T) {
@@ -406,4 +540,16 @@ func TestVerif_C16_Crash(t *testing.T) {
 	r.Require("retry_reported_success", int64(40/shards))
 	r.Require("restarts", int64(120/shards))
 	r.Require("entry_checks", int64(800/shards))
+	r.Require("crash_prefixes_auto_rebuild_no_delta", int64(60/shards))
+	r.Require("crash_prefixes_auto_rebuild_delta", int64(60/shards))
+	r.Require("crash_inside_write_sequence_auto_rebuild", int64(60/shards))
+	r.Require("crash_after_crl_write_auto_rebuild", int64(30/shards))
+	r.Require("crash_between_crl_and_crl_bookkeeping", int64(20/shards))
+	r.Require("crash_between_crl_and_crl_bookkeeping_auto_rebuild", int64(10/shards))
+	r.Require("rotations_after_interruption_under_auto_rebuild", int64(60/shards))
+	r.Require("cfgtrans:auto_off_with_pending_revocations", int64(10/shards))
+	r.Require("crls_parsed", int64(1500/shards))
+	r.Require("crl_number_comparisons", int64(1500/shards))
+	r.Require("crl_number_increase_confirmed", int64(800/shards))
+	r.Require("crl_number_increase_confirmed_under_auto_rebuild", int64(100/shards))
 }
